@@ -37,7 +37,8 @@ fn write_workspace(root: &Path, deps: &BTreeMap<String, Vec<String>>, extra_dep:
         if let Some((who, what)) = extra_dep {
             if who == n { ds.push(format!("libcnb:{what}")); }
         }
-        if ds.is_empty() && i % 3 != 2 {
+        if (ds.is_empty() && i % 3 != 2) || (!ds.is_empty() && i % 4 == 3) {
+            // (a libcnb.rs buildpack may declare libcnb: dependencies in a package.toml of its own)
             fs::write(dir.join("buildpack.toml"), component_toml(&bp_id(n))).unwrap();
             fs::write(dir.join("Cargo.toml"), "[package]\nname = \"x\"\nversion = \"0.0.0\"\n").unwrap();
         } else {
@@ -116,7 +117,8 @@ fn graph_mode(raw: &[Value], trace: &Path, scratch: &Path) -> Summary {
             }
         }
         // a dependency on a buildpack that is not part of the workspace / not a libcnb buildpack
-        for (k, what) in ["verif/zz-unknown", "verif/shell-bp"].iter().enumerate() {
+        // (also one whose id is not even a valid buildpack id, and a reserved one: an error all the same)
+        for (k, what) in ["verif/zz-unknown", "verif/shell-bp", "verif/not_an_id", "app"].iter().enumerate() {
             let tmp2 = tempfile::tempdir_in(scratch).unwrap();
             let who = &nodes[(i + k) % nodes.len()];
             write_workspace(tmp2.path(), &deps, Some((who, what)));
